@@ -1,10 +1,16 @@
 #!/bin/sh
-# try_seed.sh <SEED-DIR-NAME e.g. C20-a> [extra vcheck args]: apply to /repo, run the property's check, undo.
+# try_seed.sh <SEED-DIR-NAME e.g. C20-a> [extra vcheck args]
+# Runs the property's check against a scratch worktree of /repo HEAD with the seeded change applied
+# (S2T_REPO), so /repo itself is never modified while other checks may be running.
 s=$1; shift
 ID=${s%%-*}
-cd /repo && git apply /verif/seeded/$s/patch.diff || exit 2
-cd /verif && VERIF_SCRATCH_EVIDENCE=1 ./vcheck $ID "$@" > /tmp/scratch/try_$s.log 2>&1; rc=$?
-cd /repo && git checkout -q -- .
+wt=/tmp/wt/seedrun_$s
+git -C /repo worktree remove --force $wt 2>/dev/null
+git -C /repo worktree add -q --detach $wt HEAD || exit 2
+git -C $wt apply /verif/seeded/$s/patch.diff || { git -C /repo worktree remove --force $wt; echo "$s: patch does not apply"; exit 2; }
+mkdir -p /tmp/scratch
+cd /verif && S2T_REPO=$wt VERIF_SCRATCH_EVIDENCE=1 ./vcheck $ID "$@" > /tmp/scratch/try_$s.log 2>&1; rc=$?
+git -C /repo worktree remove --force $wt
 echo "$s: exit=$rc  $(grep -c '^VIOLATION' /tmp/scratch/try_$s.log) violation lines; $(grep '^VIOLATION' /tmp/scratch/try_$s.log | head -2 | tr '\n' ' ')"
 grep "label=" /tmp/scratch/try_$s.log | head -3
 grep "HARNESS-ERROR\|INCONCLUSIVE" /tmp/scratch/try_$s.log | head -3
